@@ -173,7 +173,8 @@ def make_case(rng):
             clean = None  # which of the two HDLC readers is selected depends on the content: only the model is consulted
     elif r < 0.55:
         ids = p1_gen.IdSource(rng)
-        sent = [p1_gen.strict_readout(rng, ids, rng.choice((0, 1, 3, 10)), checksum=rng.choice(("correct", None))) for _ in range(rng.randint(1, 8))]
+        # some readouts carry no data at all (empty payload: must not reach the payload queue)
+        sent = [p1_gen.strict_readout(rng, ids if rng.random() < 0.8 else None, rng.choice((0, 0, 1, 3, 10)), checksum=rng.choice(("correct", None))) for _ in range(rng.randint(1, 8))]
         stream = b"".join(sent)
         clean = [p for p in (p1_ref.split_readout(s)[1] for s in sent) if p]
         kind = "clean_p1"
@@ -217,8 +218,8 @@ def make_case(rng):
         parts = []
         for _ in range(rng.randint(2, 6)):
             if rng.random() < 0.5:
-                ro = p1_gen.strict_readout(rng, None, rng.choice((1, 2, 5)))
-                if rng.random() < 0.2:
+                ro = p1_gen.strict_readout(rng, None, rng.choice((0, 0, 1, 2, 5)))
+                if rng.random() < 0.2 and ro.rfind(b"!") - ro.find(b"\n") > 3:
                     # a data byte 0x80 (the one non-ASCII value the validity check lets through), checksum recomputed or absent
                     bb = bytearray(p1_gen.with_checksum_text(ro, b""))
                     lf = bb.find(b"\n")
@@ -387,6 +388,10 @@ def run(shard: dict, ctx) -> None:
     for i in range(shard["n"]):
         cfg, stream, clean, kind, cand = make_case(rng)
         ctx.count(f"stream_{kind}")
+        import re as _re
+
+        if _re.search(rb"/[^\n]*\n!", stream):
+            ctx.count("streams_with_an_empty_payload_readout")
         ctx.count(f"cands_{cand}")
         specs = [("none",), ("bytewise",) if len(stream) < 3000 else ("fixed", 7, 3)] + [splits.random_spec(rng, len(stream), False) for _ in range(2)]
         for spec in specs:
@@ -407,7 +412,7 @@ def replay(case: dict, ctx) -> None:
 def finalize(agg: dict, tier: str):
     c = agg["counters"]
     reasons = []
-    for k in ("selected_HdlcFrameReader", "selected_ModeDReader", "selected_None", "clean_streams_compared_with_sent_list", "message_mode_items", "socket_histories"):
+    for k in ("selected_HdlcFrameReader", "selected_ModeDReader", "selected_None", "clean_streams_compared_with_sent_list", "message_mode_items", "socket_histories", "streams_with_an_empty_payload_readout"):
         if c.get(k, 0) == 0:
             reasons.append(f"workload never produced '{k}'")
     return {}, reasons
